@@ -1268,6 +1268,16 @@ def rule_N7(ctx):
     ctx.analysed(dp)
     # closure: no other product function builds a TreeNode or computes a tree's prior
     analysed = {an.qualname, fd.qualname}
+    # helpers newer than the rules that the analysed functions call were looked into with them (TermFlow inlines them)
+    todo = [an, fd]
+    while todo:
+        g = todo.pop()
+        for c in calls(g.node):
+            nm = last_name(c)
+            for h in prog.functions.values():
+                if h.name == nm and prog.is_new_function(h) and h.qualname not in analysed and (h.cls is None or h.cls is g.cls or g.cls is None):
+                    analysed.add(h.qualname)
+                    todo.append(h)
     for fi in prog.functions.values():
         for c in calls(fi.node):
             if isinstance(c.func, ast.Name) and c.func.id == "TreeNode" and prog.resolve_class("TreeNode", fi.module) is tn.cls and fi.qualname not in analysed:
